@@ -270,6 +270,7 @@ fn chk_fault(kind: &str, mode: &str, data: &[u8], args: &[&str]) -> Result<(), S
     while k < n {
         let mut core = Core::new(data.to_vec(), 0);
         core.fail_from = Some(k);
+        core.fail_kind = if thorough { k / stride.max(1) } else { k };
         let (r, _) = scenario(kind, mode, args, core);
         match r {
             Err(e) => return Err(format!("{e} when the stream fails from operation {k} of {n} on")),
@@ -308,12 +309,14 @@ fn chk_fault_lookup(mode: &str, data: &[u8]) -> Result<(), String> {
         seq.push(ids[(n * 7 + 1) % ids.len()]);
         seq.push(*first);
         // faults starting at the seek or at the read of the first lookup
-        for delay in 0..2usize {
+        for dk in 0..2 * crate::streams::FAULT_KINDS.len() {
+            let (delay, fkind) = (dk % 2, dk / 2);
             if mode == "sync" {
                 let sh = Shared::new(Core::new(data.to_vec(), 0));
                 let mut pm = res(catch_unwind(AssertUnwindSafe(|| PMTiles::from_reader(sh.clone()))), "open")?;
                 let now = sh.0.borrow().ops;
                 sh.0.borrow_mut().fail_from = Some(now + delay);
+                sh.0.borrow_mut().fail_kind = fkind;
                 for (j, id) in seq.iter().enumerate() {
                     match catch_unwind(AssertUnwindSafe(|| pm.get_tile_by_id(*id))) {
                         Err(_) => return Err(format!("lookup of {id} panicked on a failing stream")),
@@ -326,6 +329,7 @@ fn chk_fault_lookup(mode: &str, data: &[u8]) -> Result<(), String> {
                 let mut pm = res(catch_unwind(AssertUnwindSafe(|| block_on(PMTiles::from_async_reader(sh.clone())))), "open")?;
                 let now = sh.0.lock().unwrap().ops;
                 sh.0.lock().unwrap().fail_from = Some(now + delay);
+                sh.0.lock().unwrap().fail_kind = fkind;
                 for (j, id) in seq.iter().enumerate() {
                     match catch_unwind(AssertUnwindSafe(|| block_on(pm.get_tile_by_id_async(*id)))) {
                         Err(_) => return Err(format!("async lookup of {id} panicked on a failing stream")),
